@@ -100,6 +100,16 @@ theorem step_erase (k : List K) (s : State) :
       | subsh b => rfl
       | andor l a r => rfl
       | neg c => rfl
+      | redir rs c =>
+        simp only [step]
+        rw [performIn_comm State.erase (fun _ => rfl) (fun _ _ => rfl)]
+        by_cases hf : (performIn rs [] s).2.2 = true
+        · simp only [hf, if_true]; rfl
+        · simp only [hf]
+          rw [undoIn_comm State.erase (fun _ _ => rfl)]; rfl
+    | undo saved =>
+      simp only [step]
+      rw [undoIn_comm State.erase (fun _ _ => rfl)]; rfl
     | branch t e he =>
       by_cases h0 : s.status = 0 <;> cases he <;> simp [step, h0, State.erase, eraseR]
     | andK a r =>
